@@ -232,6 +232,18 @@ pub(crate) fn bg_sleep_ms(engine_ms: u64) -> u64 {
     let o = BG_SLEEP_MS.load(Ordering::SeqCst);
     if o == 0 { engine_ms } else { o }
 }
+static BG_RING_ENTRIES: AtomicU64 = AtomicU64::new(0);
+/// Size of the background thread's fsync ring (0 = the engine's 2048 entries). Ring
+/// setup is the dominant, kernel-serialised cost of creating an instance.
+pub fn set_bg_ring_entries(n: u64) {
+    BG_RING_ENTRIES.store(n, Ordering::SeqCst);
+}
+#[cfg(target_os = "linux")]
+pub(crate) fn bg_ring_new(engine_entries: u32) -> io_uring::IoUring {
+    let n = BG_RING_ENTRIES.load(Ordering::SeqCst);
+    let n = if n == 0 { engine_entries } else { n as u32 };
+    io_uring::IoUring::new(n).expect("Failed to create io_uring")
+}
 pub(crate) fn persist_gate(t: &GateTicket) {
     persist_gate_obj().arrive(t.id);
 }
